@@ -439,41 +439,43 @@ def estimate_contracts(plan, tier):
     # ---- spec functions (uninterpreted; used only through instances of their defining equations) ---------------------------------
     DEC = z3.Function("decomposition", CROs, ASEQ)                               # the abstract decomposition of an operator
     CNT = z3.Function("cnt", CROs, GSs, KEYs, z3.IntSort())                      # gate count of g in the full expansion of op
-    DSUM = z3.Function("dsum", ASEQ, GSs, KEYs, z3.IntSort())                    # sum over the GateCount actions of a decomposition
-    ALLOC = z3.Function("alloc_sum", ASEQ, z3.IntSort())                         # allocated minus released wires of a decomposition
+    # prefix sums are indexed: F(s, i, ..) ranges over the FIRST i actions of s (F(s, 0) = 0, F(s, i+1) = F(s, i) + term(s[i]))
+    DSUM = z3.Function("dsum", ASEQ, z3.IntSort(), GSs, KEYs, z3.IntSort())      # sum over the GateCount actions among the first i
+    ALLOC = z3.Function("alloc_sum", ASEQ, z3.IntSort(), z3.IntSort())           # allocated minus released wires of the first i actions
     WFD = z3.Function("wf_decomp", ASEQ, z3.BoolSort())                          # counts >= 0 and allocation sizes >= 0
     ITEM_T = TupleT(CRO, Int)
     ITEMs = w.sort_of(ITEM_T)
-    WSUM = z3.Function("wsum", z3.SeqSort(ITEMs), GSs, KEYs, z3.IntSort())       # sum over the (operator, count) items of a workflow
+    WSUM = z3.Function("wsum", z3.SeqSort(ITEMs), z3.IntSort(), GSs, KEYs, z3.IntSort())   # sum over the first i (operator, count) items
 
     def cnt_def(op, gs, g):
         return [z3.Implies(z3.Select(gs, name_of(op)), CNT(op, gs, g) == z3.If(key_of(op) == g, 1, 0)),
-                z3.Implies(z3.Not(z3.Select(gs, name_of(op))), CNT(op, gs, g) == DSUM(DEC(op), gs, g))]
+                z3.Implies(z3.Not(z3.Select(gs, name_of(op))), CNT(op, gs, g) == DSUM(DEC(op), z3.Length(DEC(op)), gs, g))]
 
-    def dsum_def(s, a, gs, g):
-        return [DSUM(z3.Empty(ASEQ), gs, g) == 0,
-                DSUM(z3.Concat(s, z3.Unit(a)), gs, g) == DSUM(s, gs, g) + z3.If(is_gc(a), gc_count(a) * CNT(gc_gate(a), gs, g), 0)]
+    def in_range(s_, i):
+        return z3.And(i >= 0, i < z3.Length(s_))
 
-    def alloc_def(s, a):
-        return [ALLOC(z3.Empty(ASEQ)) == 0,
-                ALLOC(z3.Concat(s, z3.Unit(a))) == ALLOC(s) + z3.If(is_al(a), al_n(a), 0) - z3.If(is_de(a), de_n(a), 0)]
+    def dsum_def(s_, i, gs, g):
+        a = s_[i]
+        return [DSUM(s_, 0, gs, g) == 0,
+                z3.Implies(in_range(s_, i), DSUM(s_, i + 1, gs, g) == DSUM(s_, i, gs, g) + z3.If(is_gc(a), gc_count(a) * CNT(gc_gate(a), gs, g), 0))]
+
+    def alloc_def(s_, i):
+        a = s_[i]
+        return [ALLOC(s_, 0) == 0,
+                z3.Implies(in_range(s_, i), ALLOC(s_, i + 1) == ALLOC(s_, i) + z3.If(is_al(a), al_n(a), 0) - z3.If(is_de(a), de_n(a), 0))]
 
     def wf_elem(a):
         return z3.And(z3.Implies(is_gc(a), gc_count(a) >= 0), z3.Implies(is_al(a), al_n(a) >= 0), z3.Implies(is_de(a), de_n(a) >= 0))
 
-    def wfd_def(s, a):
-        return [WFD(z3.Empty(ASEQ)), WFD(z3.Concat(s, z3.Unit(a))) == z3.And(WFD(s), wf_elem(a))]
+    def wfd_def(s_, i):
+        """wf_decomp(s) := every action of s is well-formed; instance at index i"""
+        return [z3.Implies(z3.And(WFD(s_), in_range(s_, i)), wf_elem(s_[i]))]
 
-    def wsum_def(s, it, gs, g):
-        return [WSUM(z3.Empty(z3.SeqSort(ITEMs)), gs, g) == 0,
-                WSUM(z3.Concat(s, z3.Unit(it)), gs, g) == WSUM(s, gs, g) + ITEMs.accessor(0, 1)(it) * CNT(ITEMs.accessor(0, 0)(it), gs, g)]
-
-    def snoc_slice(s, k):
-        return z3.Implies(z3.And(k >= 0, k < z3.Length(s)),
-                          z3.Extract(s, 0, k + 1) == z3.Concat(z3.Extract(s, 0, k), z3.Unit(s[k])))
-
-    def prefix_facts(s, i):
-        return [snoc_slice(s, i), z3.Extract(s, 0, 0) == z3.Empty(s.sort()), z3.Extract(s, 0, z3.Length(s)) == s]
+    def wsum_def(s_, i, gs, g):
+        it = s_[i]
+        return [WSUM(s_, 0, gs, g) == 0,
+                z3.Implies(in_range(s_, i), WSUM(s_, i + 1, gs, g) == WSUM(s_, i, gs, g)
+                           + ITEMs.accessor(0, 1)(it) * CNT(ITEMs.accessor(0, 0)(it), gs, g))]
 
     # ---- views -------------------------------------------------------------------------------------------------------------------
     def gs_term(gs):
@@ -531,15 +533,13 @@ def estimate_contracts(plan, tier):
 
     fc_sum = FnContract(w, "_sum_allocated_wires", [
         Case("decomp:seq-of-actions", {"decomp": SeqT(ACTION)}, native_call=native_sum_alloc, native_gen=gen_sum_alloc,
-             ensures=lambda o, r, nw: r == (ALLOC(o.decomp.term) if isinstance(o.decomp, SeqV) else n_alloc(nw.decomp)),
-             axioms=lambda o, r, nw: prefix_facts(o.decomp.term, z3.IntVal(0)),
-             loops={0: LoopSpec(lambda v: v.s == ALLOC(z3.Extract(v.decomp.term, 0, v._i0)),
-                                axioms=lambda v: prefix_facts(v.decomp.term, v._i0) + alloc_def(z3.Extract(v.decomp.term, 0, v._i0), v.decomp.term[v._i0]))})])
+             ensures=lambda o, r, nw: r == (ALLOC(o.decomp.term, z3.Length(o.decomp.term)) if isinstance(o.decomp, SeqV) else n_alloc(nw.decomp)),
+             loops={0: LoopSpec(lambda v: v.s == ALLOC(v.decomp.term, v._i0), axioms=lambda v: alloc_def(v.decomp.term, v._i0))})])
 
     # callee contracts ------------------------------------------------------------------------------------------------------------------
     def mc_sum_alloc(it, args, kw):
         (d,) = args
-        return ALLOC(d.term)
+        return ALLOC(d.term, z3.Length(d.term))
 
     def mc_update(it, args, kwargs):
         """_update_counts_from_compressed_res_op by its contract (verified below): counts'[g] == counts[g] + scalar * cnt(op, g) for
@@ -571,7 +571,7 @@ def estimate_contracts(plan, tier):
         def inv(v):
             dec, i = v.resource_decomp.term, v._i0
             gs = v.gate_set.term
-            r = And(cnt_at(v.gate_counts_dict, G0K) == cnt_at(v.old.gate_counts_dict, G0K) + v.scalar * DSUM(z3.Extract(dec, 0, i), gs, G0K),
+            r = And(cnt_at(v.gate_counts_dict, G0K) == cnt_at(v.old.gate_counts_dict, G0K) + v.scalar * DSUM(dec, i, gs, G0K),
                     wm_frame(v.wire_manager, v.old.wire_manager))
             if wires:
                 r = And(r, inv_wm(v.wire_manager), total(v.wire_manager) >= total(v.old.wire_manager))
@@ -581,13 +581,11 @@ def estimate_contracts(plan, tier):
     def upd_inv_axioms(v):
         dec, i = v.resource_decomp.term, v._i0
         gs = v.gate_set.term
-        pre = z3.Extract(dec, 0, i)
-        return prefix_facts(dec, i) + dsum_def(pre, dec[i], gs, G0K) + \
-            [z3.Implies(z3.And(WFD(dec), i >= 0, i < z3.Length(dec)), wf_elem(dec[i]))]      # lemma wf-elementwise (proved below)
+        return dsum_def(dec, i, gs, G0K) + wfd_def(dec, i)
 
     def upd_post_axioms(o, r, nw):
         op = w.box(o.comp_res_op, CRO)
-        return cnt_def(op, gs_term(o.gate_set), G0K) + prefix_facts(DEC(op), z3.IntVal(0))
+        return cnt_def(op, gs_term(o.gate_set), G0K)
 
     def upd_counts_post(o, nw):
         if sym(o.comp_res_op):
@@ -673,7 +671,7 @@ def estimate_contracts(plan, tier):
     def rfr_inv(wires):
         def inv(v):
             items, i, gs = items_of(v), v._i0, gs_term(v.gate_set)
-            r = And(cnt_at(v.gate_counts, G0K) == WSUM(z3.Extract(items, 0, i), gs, G0K),
+            r = And(cnt_at(v.gate_counts, G0K) == WSUM(items, i, gs, G0K),
                     v.wire_manager._algo_wires == v.old.workflow.algo_wires, v.wire_manager.tight_budget == v.old.tight_budget)
             if wires:
                 r = And(r, inv_wm(v.wire_manager), v.wire_manager.zeroed + v.wire_manager.any_state >= v.old.zeroed + v.old.any_state)
@@ -682,7 +680,7 @@ def estimate_contracts(plan, tier):
 
     def rfr_inv_axioms(v):
         items, i, gs = items_of(v), v._i0, gs_term(v.gate_set)
-        return prefix_facts(items, i) + wsum_def(z3.Extract(items, 0, i), items[i], gs, G0K)
+        return wsum_def(items, i, gs, G0K)
 
     def rfr_inv_axioms_wires(v):
         # instances (at the current index) of two facts that are already on the path: the enumeration of the workflow's items
@@ -696,14 +694,14 @@ def estimate_contracts(plan, tier):
 
     def rfr_post_axioms(o, r, nw, loc):
         cell["items"] = loc.ghost.map_items[-1][1]
-        return prefix_facts(cell["items"], z3.IntVal(0))
+        return []
 
     def n_wsum(workflow, gs, g):
         return sum(c * n_cnt(op, gs, g) for op, c in workflow.gate_types.items())
 
     def rfr_counts_post(o, r):
         if sym(o.workflow):
-            return And(cnt_at(r.gate_types, G0K) == WSUM(cell["items"], gs_term(o.gate_set), G0K), r.algo_wires == o.workflow.algo_wires)
+            return And(cnt_at(r.gate_types, G0K) == WSUM(cell["items"], z3.Length(cell["items"]), gs_term(o.gate_set), G0K), r.algo_wires == o.workflow.algo_wires)
         gs = n_gate_set(o.gate_set)
         return r.algo_wires == o.workflow.algo_wires and \
             all(r.gate_types.get(g, 0) == n_wsum(o.workflow, gs, g) for g in keys_of(r.gate_types, n_universe_keys()))
@@ -761,22 +759,13 @@ def estimate_contracts(plan, tier):
         plan.add(ob)
 
     # ---- lemmas ----------------------------------------------------------------------------------------------------------------------------
-    Sa = z3.Const("Sa", ASEQ)
-    e = z3.Const("e", ACTs)
-    j = z3.Int("j")
-    snoc = z3.Concat(Sa, z3.Unit(e))
-    plan.add(lemma("C47", "wf-elementwise/step", [j],
-                   z3.Implies(z3.And(WFD(snoc), j >= 0, j < z3.Length(Sa) + 1), wf_elem(snoc[j])),
-                   assumptions=[z3.Implies(z3.And(WFD(Sa), j >= 0, j < z3.Length(Sa)), wf_elem(Sa[j])),
-                                z3.Implies(z3.And(j >= 0, j < z3.Length(Sa)), snoc[j] == Sa[j]), snoc[z3.Length(Sa)] == e] + wfd_def(Sa, e)))
-    plan.add(lemma("C47", "seq/snoc-slice", [j], snoc_slice(Sa, j)))
     # repeating an operation multiplies its counts / a workflow's counts are the sum over its parts: consequences of the contract
     c0, c1, c2, sc1, sc2, x1, x2 = z3.Ints("c0 c1 c2 sc1 sc2 x1 x2")
     plan.add(lemma("C47", "update-contract/two-updates-add;repeat-multiplies", [c0, c1, c2, sc1, sc2, x1, x2],
                    z3.And(z3.Implies(z3.And(c1 == c0 + sc1 * x1, c2 == c1 + sc2 * x2), c2 == c0 + (sc1 * x1 + sc2 * x2)),
                           z3.Implies(z3.And(c1 == c0 + sc1 * x1, c2 == c1 + sc2 * x1), c2 == c0 + (sc1 + sc2) * x1))))
     return w, dict(CRO=CRO, KEY_T=KEY_T, GCD=GCD, G0K=G0K, CNT=CNT, WSUM=WSUM, wsum_def=wsum_def, ITEMs=ITEMs, ITEM_T=ITEM_T,
-                   gs_term=gs_term, cnt_at=cnt_at, inv_wm=inv_wm, prefix_facts=prefix_facts, n_cnt=n_cnt, n_gate_set=n_gate_set,
+                   gs_term=gs_term, cnt_at=cnt_at, inv_wm=inv_wm, n_cnt=n_cnt, n_gate_set=n_gate_set,
                    cell=cell, keyfn=keyfn)
 
 
@@ -797,28 +786,25 @@ def misc_contracts(plan, tier):
     ITEM_T = TupleT(CRO, Int)
     ITEMs, CROs = w.sort_of(ITEM_T), w.sort_of(CRO)
     ISEQ = z3.SeqSort(ITEMs)
-    NSUM = z3.Function("nsum", ISEQ, LabelSort, z3.IntSort())       # sum of the counts of the items whose operator has the given name
+    NSUM = z3.Function("nsum", ISEQ, z3.IntSort(), LabelSort, z3.IntSort())   # sum of the counts of those of the first i items whose operator has the given name
     N0 = z3.Const("n0", LabelSort)                                   # an arbitrary operator name
 
-    def nsum_def(s_, it, n):
-        return [NSUM(z3.Empty(ISEQ), n) == 0,
-                NSUM(z3.Concat(s_, z3.Unit(it)), n) == NSUM(s_, n) + z3.If(CROs.accessor(0, 3)(ITEMs.accessor(0, 0)(it)) == n,
-                                                                             ITEMs.accessor(0, 1)(it), 0)]
-
-    def facts(s_, i):
-        return [z3.Implies(z3.And(i >= 0, i < z3.Length(s_)), z3.Extract(s_, 0, i + 1) == z3.Concat(z3.Extract(s_, 0, i), z3.Unit(s_[i]))),
-                z3.Extract(s_, 0, 0) == z3.Empty(ISEQ), z3.Extract(s_, 0, z3.Length(s_)) == s_]
+    def nsum_def(s_, i, n):
+        it = s_[i]
+        return [NSUM(s_, 0, n) == 0,
+                z3.Implies(z3.And(i >= 0, i < z3.Length(s_)),
+                           NSUM(s_, i + 1, n) == NSUM(s_, i, n) + z3.If(CROs.accessor(0, 3)(ITEMs.accessor(0, 0)(it)) == n, ITEMs.accessor(0, 1)(it), 0))]
 
     def items_of(v):
         return v.ghost.map_items[-1][1]
 
     def post_axioms(o, r, nw, loc):
         cell["items"] = loc.ghost.map_items[-1][1]
-        return facts(cell["items"], z3.IntVal(0))
+        return []
 
     def gc_post(o, r):
         if sym(o.self):
-            return cnt_of(r, N0) == NSUM(cell["items"], N0)
+            return cnt_of(r, N0) == NSUM(cell["items"], z3.Length(cell["items"]), N0)
         names = {op.name for op in o.self.gate_types} | set(r)
         return all(r.get(n, 0) == sum(c for op, c in o.self.gate_types.items() if op.name == n) for n in names)
 
@@ -835,9 +821,9 @@ def misc_contracts(plan, tier):
         keys = {(j, nw_) for j, nw_ in ((rng.randrange(N_UNIVERSE), rng.randrange(3)) for _ in range(rng.randint(0, 5)))}
         return {"self": {"__class__": "Resources", "zeroed_wires": 0, "any_state_wires": 0, "algo_wires": 1,
                          "gate_types": {"__map__": [[dict(CRO_DATA(j), num_wires=nw_), rng.randint(-2, 6)] for j, nw_ in sorted(keys)]}}}
-    ls = LoopSpec(lambda v: cnt_of(v.gate_counts, N0) == NSUM(z3.Extract(items_of(v), 0, v._i0), N0),
+    ls = LoopSpec(lambda v: cnt_of(v.gate_counts, N0) == NSUM(items_of(v), v._i0, N0),
                   types={"gate_counts": X.DMapT(Label)},
-                  axioms=lambda v: facts(items_of(v), v._i0) + nsum_def(z3.Extract(items_of(v), 0, v._i0), items_of(v)[v._i0], N0))
+                  axioms=lambda v: nsum_def(items_of(v), v._i0, N0))
     fc = FnContract(w, "Resources.gate_counts", [
         Case("by-name", {"self": RecT("Resources")}, native_gen=gen_gc, ensures=lambda o, r, nw: gc_post(o, r),
              axioms=post_axioms, loops={0: ls})])
@@ -886,17 +872,41 @@ def build(tier, seed):
     plan = Plan("C47", level="proof")
     plan.explanation = ("The real bodies of the estimator's bookkeeping functions are executed symbolically on integers, records, "
                         "maps with symbolic contents (z3 arrays; every per-gate-type statement is proved at an arbitrary key) and "
-                        "action sequences of symbolic length; the decomposition of an operator is an uninterpreted function.")
-    plan.trusted_base = ["vf/pyvc encoder (Python subset semantics) incl. vf/pyvc/xmaps.py (defaultdict/Counter maps, tagged unions)",
+                        "action sequences of symbolic length; the decomposition of an operator is an uninterpreted function, the gate "
+                        "count cnt(op, g) its recursive unfolding; the recursive call is used through the contract being proved "
+                        "(partial correctness), loops are cut by invariants.")
+    plan.trusted_base = ["vf/pyvc encoder (Python subset semantics) incl. vf/pyvc/xmaps.py (defaultdict/Counter maps, tagged unions, "
+                         "in-place havoc of objects mutated through calls)",
                          "z3 (arrays with lambdas, linear/non-linear integer arithmetic, sequences, datatypes)",
-                         "induction over histories / naturals (meta-level) for the lemma groups wire-history/* and Resources/multiply*"]
-    plan.assumptions = ["python int = mathematical integer (exact)"]
+                         "induction over histories / naturals (meta-level) for the lemma groups wire-history/*, Resources/multiply*",
+                         "defining equations of the spec functions cnt / dsum / wsum / nsum / alloc_sum (used by instances only)"]
+    plan.assumptions = ["python int = mathematical integer (exact)",
+                        "termination of the recursion over decompositions (the decomposition relation is a DAG): partial correctness",
+                        "A-abstract-decomposition: _get_resource_decomposition(op, config) is an arbitrary function of the compressed operator "
+                        "(config fixed during one estimate) into a list of GateCount/Allocate/Deallocate, or raises",
+                        "A-wellformed-decomposition (ONLY for the wire-bookkeeping / wire-totals cases, not for the gate-count cases): every "
+                        "decomposition has GateCount.count >= 0 and Allocate/Deallocate.num_wires >= 0, the scalar and the workflow's counts "
+                        "are >= 0 -- nothing in the code validates this (negative sizes drive the bookkeeping negative, see notes)",
+                        "dictionary keys: a CompressedResourceOp keys on (op_type, num_wires, params) as its __eq__/__hash__ do; op_type, params "
+                        "and names are uninterpreted hashable labels; DefaultGateSet is an arbitrary fixed set of names"]
     plan.assumed_contracts = ["collections.Counter.__add__: key-wise sum, only positive sums kept; Counter(m)/defaultdict(int, m)/dict(m) copy m",
-                              "dict iteration (`.items()`): every key exactly once, order unspecified"]
+                              "dict iteration (`.items()`): every key exactly once, order unspecified",
+                              "ResourceConfig(): an opaque value only forwarded to the (abstract) decomposition lookup"]
     plan.dropped = ["docstrings, annotations, f-string messages of exceptions, __str__/__repr__"]
     wire_manager_contracts(plan, tier)
     resources_contracts(plan, tier)
     estimate_contracts(plan, tier)
     misc_contracts(plan, tier)
-    plan.unverified = ["estimate(): queuing / dispatch plumbing (with-statement, singledispatch)"]
+    plan.unverified = ["estimate() / _resources_from_qfunc.wrapper: queuing, singledispatch, algorithmic-wire count from the queue (with-statement)",
+                       "_ops_to_compressed_reps, _map_to_resource_op; the concrete decompositions of the operator library and the default "
+                       "adjoint/controlled/pow decompositions (apply_default_symbolic_decomp): additivity is proved for ANY decomposition",
+                       "exact wire numbers reached through nested decompositions (proved: never negative, totals never decrease, totals >= "
+                       "algorithmic wires and >= the pre-allocated pool); the rule `scale allocations unless they cancel` is not specified",
+                       "ResourceOperator.__mul__/__matmul__/add_series/add_parallel (dict literal with an object key), Resources.__eq__, "
+                       "total_gates, gate_breakdown, __str__"]
+    plan.notes = {"observations": [
+        "WireResourceManager.grab_zeroed / free_wires and Allocate / Deallocate accept negative sizes: grab_zeroed(-3) on (zeroed=1, any=0) "
+        "gives any_state = -3 (script /tmp/c47_oddities.py); the property holds on the documented domain (sizes >= 0) only",
+        "Resources.__eq__ distinguishes a stored zero count from a missing key: r.multiply_series(2) == r.add_series(r) is False for "
+        "gate_types {X: 0, T: 2} although every count agrees (Counter addition drops the zero entry)"]}
     return plan
